@@ -23,6 +23,7 @@ type evalCtx struct {
 	fr     *Frame
 	at     *ssa.BasicBlock
 	qdepth int
+	inOld  bool   // evaluating inside old(...): parameters denote their entry values
 	sink   *State // live state that receives definitional facts about fresh results of contract calls inside pure evaluation
 }
 
@@ -240,6 +241,20 @@ func (e *Engine) evalIdent(c *evalCtx, name string) Val {
 		// inlined frame: its own variables shadow the names of the function under verification
 		if v, ok := e.lookupVar(c.st, c.fr, name, c.at); ok {
 			return v
+		}
+	}
+	if c.fr != nil && c.fr.isTop && !c.inOld {
+		// at a program point (loop invariant, atcall): an address-taken parameter has a current value that may differ
+		// from its entry value bound in the environment
+		for _, p := range c.fr.fn.Params {
+			if p.Name() != name {
+				continue
+			}
+			for v, r := range c.fr.regs {
+				if a, ok := v.(*ssa.Alloc); ok && a.Comment == name && a.Parent() == c.fr.fn {
+					return c.st.loadAt(ptrInfo(r), deref(r.T))
+				}
+			}
 		}
 	}
 	if v, ok := c.env[name]; ok {
@@ -836,6 +851,7 @@ func (e *Engine) evalCall(c *evalCtx, n *ECall) Val {
 			oc := *c
 			oc.st = c.old
 			oc.old = nil
+			oc.inOld = true
 			if oc.sink == nil {
 				oc.sink = c.st
 			}
